@@ -294,3 +294,12 @@ Definition allow_atoms (w : allow_sit) : valuation := fun a =>
   | AIsNamedTuple => w_namedtuple w | AAllowNtSubclass => w_allow_nt_subclass w | ABaseIsNamedTuple => w_base_namedtuple w
   | _ => false
   end.
+
+(* ------------------------------------------------------------------ py_builtins.overload_of *)
+Record ov_sit : Set := mk_ov { o_in_supported : bool; o_name_in_map : bool }.
+Definition ov_atoms (o : ov_sit) : valuation := fun a =>
+  match a with
+  | AInSupportedBuiltins => o_in_supported o
+  | ANameInOverloadMap => o_name_in_map o
+  | _ => false
+  end.
